@@ -247,8 +247,8 @@ def run_c18(ctx, replay_path=None):
     res.rule = ("sessions = `reset <size> <layout> <fill>` (sizes 29,30,58,61,100,255,300,600 x default / layout_with_overhead<1> / "
                 "nRF encrypted_pdu_layout / layout_with_overhead<3>) followed by random alloc / push (= alloc_front + fill + push_front) / "
                 "peek / pop / more_than_one / memory-dump ops; buffer sizes are aimed at the places where the allocation rule changes "
-                "(remaining bytes to the end of the storage, distance to end_, +-1), PDU memory sizes up to 258; 4% of the pushes violate a "
-                "documented precondition (answered `pre` by harness and model without calling the ring). Every session runs on the real "
+                "(remaining bytes to the end of the storage, distance to end_, +-1), PDU memory sizes up to 258; pushes whose aimed buffer is too small for any PDU and a further 4% deliberately violate a "
+                "documented precondition (about a quarter of all pushes; answered `pre` by harness and model without calling the ring). Every session runs on the real "
                 "pdu_ring_buffer (storage = exactly-sized heap block under ASan) and on the Lean model; all answers (offsets, front_/end_ "
                 "offsets, PDU bytes, full storage dumps) are compared verbatim, and an independent Python monitor (list of committed PDUs + "
                 "shadow storage) checks FIFO order, unchanged bytes, non-overlap, in-bounds, stray writes and the allocation rule. "
